@@ -33,6 +33,7 @@ class Session:
         self.scoped_wp_companions = set()
         self.allow_extra_text = set()     # relocated addresses allowed to differ (documented internal)
         self.text_checks = 0
+        self.tolerate_extra_int3 = False   # set while a scoped watchpoint (end-of-scope companion breakpoints) exists
 
     # ---------------------------------------------------------------- low level
     def cmd(self, _c, mon=None, timeout=None, **kw):
@@ -176,6 +177,9 @@ class Session:
                                     dict(sample_ctx, diff=d), prop='C02')
                     continue
                 if memb == 0xCC and self._allowed_internal(path, foff):
+                    continue
+                if memb == 0xCC and self.tolerate_extra_int3:
+                    v.count('companion_breakpoints_tolerated')
                     continue
                 v.violation(f'text:stray-patch-after-{cmdname}',
                             'code byte differs from the on-disk image where no user or documented internal breakpoint is set',
